@@ -193,6 +193,8 @@ def _session_scenario(rng, purpose="rewind", allow_spend=True):
         for i in range(n // 2):
             g.emit(rng.range(0, 16), "OP_DROP") if i < 90 else g.emit(rng.range(0, 16), rng.range(0, 16))
         scn["observe"] = n <= 101 and rng.chance(50)      # a 1000-line `print` after every step would only fill the event log
+        if n > 250:
+            scn["discard_stdout"] = True                  # every step prints the whole remaining script: count it, do not record it
     elif fam == "bigstack":
         # stack + altstack near 1000
         n0 = rng.range(985, 998)
